@@ -63,6 +63,27 @@ def build_job(model: Model, pkg: Path, jobdir: Path, extra_flags: List[str] = ()
     return {"ok": True, "exe": str(exe)}
 
 
+# Language level and compiler family of the images the three dataset classes run by default: AnalysisBase 21.2 (gcc 8, C++14),
+# CMSSW_5_3_32 (gcc 4.x, -std=c++0x), CMSSW_7_6_7 gcc493 (C++14).  The harness builds its jobs with clang++ -std=c++17.
+TARGET_STD = {"atlas": "c++14", "cms_aod": "c++11", "cms_miniaod": "c++14"}
+
+
+def dialect_check(model: Model, jobdir: Path, timeout: int = 300) -> Optional[str]:
+    """Second compiler, target dialect: the unity source of a job that built with clang++/C++17 must also pass
+    `g++ -std=<what the experiment's release compiles with> -fsyntax-only`.  Returns the first error lines, or None."""
+    if shutil.which("g++") is None:
+        return None
+    cmd = ["g++", f"-std={TARGET_STD[model.backend]}", "-fsyntax-only", "-w", "-I", str(model.inc), "-I", str(jobdir / "inc"), str(jobdir / "unity.cxx")]
+    try:
+        r = subprocess.run(cmd, capture_output=True, text=True, timeout=timeout)
+    except subprocess.TimeoutExpired:
+        return None
+    if r.returncode == 0:
+        return None
+    errs = [l for l in r.stderr.splitlines() if "error" in l]
+    return " | ".join(e[-220:] for e in errs[:3]) or r.stderr[-300:]
+
+
 def package_compile_options(pkg: Path, backend: str) -> List[str]:
     "options named in target_compile_options(...) of the ATLAS CMake file / in <flags CXXFLAGS=...> of the CMS BuildFile"
     out: List[str] = []
